@@ -147,7 +147,15 @@ impl Write for FaultSink {
         }
     }
     fn flush(&mut self) -> io::Result<()> {
-        self.st.lock().unwrap().flushes += 1;
+        let mut s = self.st.lock().unwrap();
+        s.flushes += 1;
+        // a benign schedule may also interrupt the first flush (EINTR during an fsync): a caller that flushes must retry
+        if let Script::Schedule { pattern, terminal: None } = &self.script {
+            if s.flushes == 1 && pattern.len() % 3 == 0 {
+                s.interrupts += 1;
+                return Err(io::Error::new(ErrorKind::Interrupted, "injected interruption of flush"));
+            }
+        }
         Ok(())
     }
     fn write_vectored(&mut self, bufs: &[io::IoSlice<'_>]) -> io::Result<usize> {
